@@ -252,7 +252,8 @@ def genComplexDef (p : Plan) (it : Planned) (allowBase : Bool) : M ComplexDef :=
   pure { base := base, content := if hasContent then some (o, retagList tag ps) else none,
          attrs := attrs.map fun a => { a with name := a.name ++ tag } }
 
-def docPool : List String := ["A documented type.", "first line\nsecond line", "  padded  ", "quotes \" and \\ backslash", "a*/b /* c", "tab\there"]
+def docPool : List String := ["A documented type.", "first line\nsecond line", "  padded  ", "quotes \" and \\ backslash", "a*/b /* c", "tab\there",
+  "carriage\rreturn inside a line", "windows\r\nline ends\r\n", "trailing backslash \\", "/// looks like a doc comment", "non-ascii ü → λ"]
 
 /-- schema sets. `cyclic = false`: the import graph is a DAG plus self-imports, and lookup references
     (`ref=`, `base=`) may cross files along it. `cyclic = true`: any directed graph (mutual imports,
